@@ -347,6 +347,7 @@ def _check_cum(case):
     if span is not None:
         kwargs["span"] = span
     before_c, before_x = _snapshot(c), _snapshot(x)
+    span_repr = repr(span)
     name = f"cum_{fn}"
     if case["form"] == "method":
         y = c.copy()
@@ -354,6 +355,12 @@ def _check_cum(case):
     else:
         y = api(f"{name}:function", getattr(ir, name), c, -k, **kwargs)
     col.check(_snapshot(x) == before_x, f"{name}:initial_modified", "the initial-condition series changed")
+    if span is not None:
+        col.check(repr(span) == span_repr, f"{name}:span_argument_modified", lambda: f"the caller's span {span_repr} became {span!r}")
+        # the same span object serves a second call (a history: observe -> call -> call)
+        y2 = api(f"{name}:function", getattr(ir, name), c, -k, **kwargs)
+        col.check(_snapshot(y2) == _snapshot(y), f"{name}:second_call_with_same_span_differs",
+                  lambda: f"{name}(c, {-k}, span={span_repr}) gives a different result when the same span object is passed again")
     if case["form"] == "function":
         col.check(_snapshot(c) == before_c, f"{name}:input_modified", "the change series changed")
     # ---- reference recursion ---------------------------------------------
